@@ -157,6 +157,15 @@ func (vc *VC) emit(o *Obl, dir string, idx int) (string, int, error) {
 				if nq <= 6 {
 					terms = append(terms, "(- "+sk+" 1)", "(+ "+sk+" 1)")
 				}
+				// images under the permutations introduced by sort models
+				for _, d := range vc.decls {
+					if strings.HasPrefix(d, "(declare-fun perm!") {
+						f := strings.Fields(d)[1]
+						if strings.Contains(ctx, f) {
+							terms = append(terms, "("+f+" "+sk+")")
+						}
+					}
+				}
 			}
 			type item struct {
 				q     quantRec
